@@ -3,6 +3,7 @@
 package main
 
 import (
+	"context"
 	"errors"
 	"io"
 	"strings"
@@ -30,10 +31,16 @@ type evReader struct {
 	closed int
 	reads  int
 	cid    string
+	ctx    context.Context // the context of the ContainerLogs request: like the real client's body, the stream dies with it
 }
 
 func (r *evReader) Read(p []byte) (int, error) {
 	r.reads++
+	if r.ctx != nil {
+		if err := r.ctx.Err(); err != nil {
+			return 0, err
+		}
+	}
 	for {
 		if len(r.evs) == 0 {
 			return 0, io.EOF
